@@ -296,6 +296,10 @@ def gen_job(seed, profile="general"):
                     # the load at its full value in the first substep, then tiny increments
                     fac = [1 + 3e-6 * i for i in range(n)]
                     scl = lambda c, i: round(c * fac[i], 12)
+                elif kpick(seed, f"item-cycle:{j}:{k}", 5) == 0 and n > 1:
+                    # load cycle: full value, exactly zero, reversed, exactly zero again, ...
+                    cyc = (1.0, 0.0, -1.0, 0.0, 0.5, 0.0)
+                    scl = lambda c, i: round(c * cyc[i % 6], 6) + 0.0
                 else:
                     scl = lambda c, i: round(c * (i + 1) / n, 6)
                 if isinstance(tv, list) and isinstance(tv[0], list):
@@ -424,7 +428,7 @@ def apply_units(doc, L, S):
         return None
     m = d["mesh"]
     dim = 3 if m["gen"] == "Cube" else 2
-    for key in ("a", "b", "extra_point", "orphan_point"):
+    for key in ("a", "b", "extra_point", "orphan_point", "translate"):
         if m.get(key) is not None:
             m[key] = _scale(m[key], L)
     if m["gen"] not in ("Cube", "Rectangle"):
